@@ -92,7 +92,9 @@ import (
 	"github.com/WICG/webpackage/go/signedexchange/version"
 	"github.com/WICG/webpackage/go/signedexchange/zverif/fixtures"
 	"github.com/WICG/webpackage/go/signedexchange/zverif/mc"
+	"github.com/WICG/webpackage/go/signedexchange/zverif/refcbor"
 	"github.com/WICG/webpackage/go/signedexchange/zverif/refpolicy"
+	"github.com/WICG/webpackage/go/signedexchange/zverif/refsxg"
 )
 
 var c09Versions = []version.Version{version.Version1b1, version.Version1b2, version.Version1b3}
@@ -424,7 +426,7 @@ var (
 )
 
 func init() {
-	methods := []string{"GET", "HEAD", "POST", "PUT", "get", ""}
+	methods := []string{"GET", "HEAD", "POST", "PUT", "get", "", c09MethodAbsent}
 	c09Full = &c09Alphabet{c09Times(), methods, c09ReqHeaderAlts(true), c09RespHeaderAlts(true), c09CCAlts(2), c09Statuses()}
 	c09PairsQuick = &c09Alphabet{c09Times(), methods, c09ReqHeaderAlts(false), c09RespHeaderAlts(false), c09CCAlts(0), c09BoundaryStatuses()}
 	c09PairsThorough = &c09Alphabet{c09Times(), methods, c09ReqHeaderAlts(true), c09RespHeaderAlts(true), c09CCAlts(1), c09Statuses()}
@@ -483,6 +485,9 @@ func (cs *c09Case) input(i int, respNames []string) refpolicy.Input {
 	}
 	if cs.ver < 2 {
 		in.Method = cs.method
+		if cs.method == c09MethodAbsent {
+			in.Method = ""
+		}
 		if cs.reqExtra != "-" {
 			in.RequestHeaders = []string{"Accept"}
 			if cs.reqExtra != "" {
@@ -491,6 +496,64 @@ func (cs *c09Case) input(i int, respNames []string) refpolicy.Input {
 		}
 	}
 	return in
+}
+
+// c09MethodAbsent: the request map carries no ':method' entry at all.  In memory that is the empty
+// method; on the wire the exchange is signed and written as a GET and the ':method' entry is then
+// removed from the request map of the file (the repository's writer always emits one).
+const c09MethodAbsent = "<no :method entry>"
+
+// c09DropMethod rewrites a b1/b2 file so that its request map has no ':method' entry.
+func c09DropMethod(file []byte) ([]byte, error) {
+	p, err := refsxg.ParseFile(file)
+	if err != nil {
+		return nil, err
+	}
+	hdr, n, err := refcbor.Decode(p.HeaderBytes)
+	if err != nil || n != len(p.HeaderBytes) || len(hdr.Elems) != 2 {
+		return nil, fmt.Errorf("header block is not an array of two maps (%v)", err)
+	}
+	req := hdr.Elems[0]
+	var kvs []refcbor.KV
+	dropped := 0
+	for i := 0; i+1 < len(req.Elems); i += 2 {
+		if string(req.Elems[i].Str) == ":method" {
+			dropped++
+			continue
+		}
+		kvs = append(kvs, refcbor.KV{K: req.Elems[i].Raw, V: req.Elems[i+1].Raw})
+	}
+	if dropped != 1 {
+		return nil, fmt.Errorf("request map has %d ':method' entries", dropped)
+	}
+	newReq, err := refcbor.EncMap(kvs)
+	if err != nil {
+		return nil, err
+	}
+	newHdr := refcbor.EncArray(newReq, hdr.Elems[1].Raw)
+	be := func(v, w int) []byte {
+		b := make([]byte, w)
+		for i := w - 1; i >= 0; i-- {
+			b[i] = byte(v)
+			v >>= 8
+		}
+		return b
+	}
+	out := append([]byte{}, refsxg.Magic(p.Version)...)
+	if p.Version != refsxg.B1 {
+		out = append(out, be(len(p.FallbackURL), 2)...)
+		out = append(out, p.FallbackURL...)
+	}
+	out = append(out, be(len(p.Signature), 3)...)
+	out = append(out, be(len(newHdr), 3)...)
+	out = append(out, p.Signature...)
+	out = append(out, newHdr...)
+	out = append(out, p.Payload...)
+	// self-check: the only thing the reference parser objects to is the missing ':method'
+	if _, err := refsxg.ParseFile(out); err == nil || !strings.Contains(err.Error(), "request map without ':method'") {
+		return nil, fmt.Errorf("rewritten file does not parse as intended (%v)", err)
+	}
+	return out, nil
 }
 
 // c09Build constructs the exchange with its final headers, then MI-encodes and signs
@@ -502,6 +565,12 @@ func c09Build(cs *c09Case, seed int64) (*signedexchange.Exchange, []string, erro
 	method := "GET"
 	if cs.ver < 2 {
 		method = cs.method
+		if method == c09MethodAbsent {
+			method = ""
+			if cs.wire {
+				method = "GET"
+			}
+		}
 		if cs.reqExtra != "-" {
 			reqH = http.Header{"Accept": {"*/*"}}
 			if cs.reqExtra != "" {
@@ -568,7 +637,14 @@ func c09Build(cs *c09Case, seed int64) (*signedexchange.Exchange, []string, erro
 	if err := e.Write(&buf); err != nil {
 		return nil, names, fmt.Errorf("Exchange.Write: %v", err)
 	}
-	e2, err := signedexchange.ReadExchange(&buf)
+	file := buf.Bytes()
+	if cs.ver < 2 && cs.method == c09MethodAbsent {
+		var err error
+		if file, err = c09DropMethod(file); err != nil {
+			panic("c09: cannot remove ':method' from the written file: " + err.Error())
+		}
+	}
+	e2, err := signedexchange.ReadExchange(bytes.NewReader(file))
 	if err != nil {
 		return nil, names, fmt.Errorf("ReadExchange: %v", err)
 	}
@@ -961,7 +1037,7 @@ func init() {
 			"Every exchange is really signed (ECDSA P-256) after its headers are final, so signature and payload integrity hold by construction. A case is non-trivial when it deviates from the default (all-conditions-met) exchange in at least one dimension; distinct by (version, form, deviations). For C09/storable every (directives, status, Expires) triple is distinct by construction.",
 		Assumptions: []string{
 			"refpolicy (written from the drafts and RFC 7234 section 3) is correct; 'status code understood by the cache' = net/http.StatusText knows it (same reading as the code)",
-			"signedexchange.Signer and MiEncodePayload produce a valid signature and payload for the headers they are given (C01/C02/C08 judge that); the harness edits nothing signed afterwards",
+			"signedexchange.Signer and MiEncodePayload produce a valid signature and payload for the headers they are given (C01/C02/C08 judge that); the harness edits nothing signed afterwards (except the ':method' entry removed from the file in the method-absent wire form, whose absence is the condition under test)",
 			"outside the alphabet (see file comment): explicit default port / host case in validity URLs, quoted or qualified directive arguments, empty Expires/Content-Type values, request side of in-memory 1b3 exchanges, non-canonical map keys for Cache-Control/Expires/Content-Type, three simultaneous deviations",
 		},
 		Harnesses: []*mc.Harness{single, pairs, storable, twosig},
